@@ -269,6 +269,22 @@ def round_trip(ctx, rng):
     if info2 != info:
         ctx.violation("round-trip:get_info-differs", "get_info(copy) != get_info(original)", w)
         return
+    if hasattr(c, "mapping") and tn != "DictArithmetic" and "stale-mapping" not in feats and rng.random() < 0.5:
+        # the rebuilt model is a working model: it grows like the original would
+        ok, c2 = ctx.call("create_from_info", L.utils.create_from_info, info, _w=w)
+        if not ok:
+            return
+        n0 = len(c2.mapping)
+        try:
+            c2[("fresh_label_after_round_trip",)] += 2
+        except KeyError:
+            n0 = None
+        if n0 is not None:
+            ctx.count("aliasing-probes")
+            mp_ = c2.mapping
+            if set(mp_.values()) != set(range(len(mp_))) or len(mp_) != n0 + 1 or {v: k for k, v in mp_.items()} != c2.reverse_mapping:
+                ctx.violation("round-trip:copy-does-not-grow-consistently", "after adding a new label to the rebuilt model: mapping %r, reverse_mapping %r" % (mp_, c2.reverse_mapping), w)
+                return
     # the info dict must not alias the model
     info["terms"][("zz",) if not tn.endswith("Matrix") else (99,)] = 5
     if "mapping" in info and isinstance(info["mapping"], dict):
@@ -398,19 +414,30 @@ def aliasing(ctx, rng):
     T = type(m)
     junk_key = (97,) if tn.endswith("Matrix") else ("junk",)
     # ---- objects handed out must be independent of the model -------------------------------------------------
-    handed = {"copy": m.copy(), "ctor": T(m), "variables": m.variables, "subs": m.subs({}), "round": round(m, 6)}
+    import copy as _copy
+    handed = {"copy": m.copy(), "ctor": T(m), "variables": m.variables, "subs": m.subs({}), "round": round(m, 6),
+              "deepcopy": _copy.deepcopy(m)}        # (copy.copy is shallow by definition: its sharing is Python's, not the library's)
+    if len(m):
+        # a normalisation that has nothing to do (the largest magnitude already is the requested value) still hands out a new object
+        mx_ = max(abs(v) for v in m.values())
+        handed["normalize"] = L.utils.normalize(m, mx_)
     for a in ("mapping", "reverse_mapping", "constraints"):
         if hasattr(m, a):
             handed[a] = getattr(m, a)
     for name, obj in handed.items():
         ctx.count("aliasing-probes")
-        if name in ("copy", "ctor", "subs", "round"):
+        if name == "deepcopy":
+            # the copy module's replicas are exact: name and (user / un-refreshed) mapping included
+            if public_state(obj) != before:
+                ctx.violation("%s:differs-from-original" % name, "%s(): %r vs %r" % (name, public_state(obj), before), w)
+                return
+        if name in ("copy", "ctor", "subs", "round", "deepcopy", "normalize"):
             if obj is m:
                 ctx.violation("%s:returns-the-same-object" % name, "%s returned the model itself" % name, w)
                 return
             # (name and an un-refreshed mapping are not part of what a copy must reproduce)
             ps = public_state(obj)
-            if any(ps.get(a) != before.get(a) for a in ("type", "terms", "constraints", "num_ancillas")):
+            if name != "normalize" and any(ps.get(a) != before.get(a) for a in ("type", "terms", "constraints", "num_ancillas")):
                 ctx.violation("%s:differs-from-original" % name, "%s(): %r vs %r" % (name, ps, before), w)
                 return
             obj[junk_key] = 3
